@@ -206,6 +206,19 @@ def run_case(case, seed):
         mask2 = call_poisson(cfg, dt)
         if not np.array_equal(mask, mask2):
             V("reproducible", "second call with the same arguments and seed returned a different mask")
+        # ... and with a call for ANOTHER seed of the same geometry in between ("depends only on the arguments and seed")
+        if cfg["tol"] >= 0.1 and max(cfg["shape"]) <= 64:
+            try:
+                call_poisson(dict(cfg, seed=cfg["seed"] + 17), dt)
+            except (ValueError, NoReturn):
+                pass
+            try:
+                mask3 = call_poisson(cfg, dt)
+                if not np.array_equal(mask, mask3):
+                    V("reproducible", "same arguments and seed returned a different mask after an intervening call with another seed "
+                      "(%d positions differ)" % int(np.sum(np.asarray(mask) != np.asarray(mask3))))
+            except (ValueError, NoReturn):
+                V("reproducible", "same arguments and seed raised after an intervening call with another seed")
     return dict(states=2, transitions=gens + 1, nontrivial=bool(nontrivial),
                 outcome=outcome if not viol else "violation:" + viol[0]["oracle"], viol=viol)
 
